@@ -1,6 +1,7 @@
 import Lean.Data.Json
 import SpoxModel.Model.Emit
 import SpoxModel.Model.Conform
+import SpoxModel.Model.SchemaSel
 /-! Line-protocol handler for C11 (model side of the correspondence).
 
 `{"kind":"emit", …}`  : run `Emit.emitNode` on an explicit node instance (field kinds, presence,
@@ -190,6 +191,37 @@ def handleInSpell (req : Json) : Except String Json := do
   | none => return Json.mkObj [("raises", true)]
   | some l => return Json.mkObj [("raises", false), ("inputs", slotsJson (emitSlots minI l))]
 
+/-- `{"kind":"schemasel","sinces":[..],"version":n|null}` : `_current_schema` on schemas identified by their
+    position in the list → `{"idx": position | -1}`. -/
+def handleSchemaSel (req : Json) : Except String Json := do
+  let sinces ← req.getObjValAs? (List Nat) "sinces"
+  let version : Option Nat := match req.getObjVal? "version" with
+    | .ok (Json.num n) => some n.mantissa.toNat
+    | _ => none
+  let l := (List.range sinces.length).zip sinces |>.map fun p => (p.2, p.1)
+  match SchemaSel.currentSchema l version with
+  | some s => return Json.mkObj [("idx", toJson (s.2 : Nat))]
+  | none => return Json.mkObj [("idx", toJson (-1 : Int))]
+
+/-- `{"kind":"schemasget","lists":[[name,[since..]]..],"queries":[[version,name]..]}` : the `SCHEMAS[domain]`
+    table of one domain → `{"since":[since | -1 ..]}`. -/
+def handleSchemasGet (req : Json) : Except String Json := do
+  let listsJ ← req.getObjValAs? (Array Json) "lists"
+  let lists ← listsJ.toList.mapM fun j => do
+    let a ← (fromJson? j : Except String (Array Json))
+    let n ← (fromJson? a[0]! : Except String String)
+    let ss ← (fromJson? a[1]! : Except String (List Nat))
+    pure (n, ss.map fun s => (s, ()))
+  let qsJ ← req.getObjValAs? (Array Json) "queries"
+  let ans ← qsJ.toList.mapM fun j => do
+    let a ← (fromJson? j : Except String (Array Json))
+    let v ← (fromJson? a[0]! : Except String Nat)
+    let n ← (fromJson? a[1]! : Except String String)
+    pure (match SchemaSel.schemasGet lists v n with
+      | some s => (s.1 : Int)
+      | none => -1)
+  return Json.mkObj [("since", toJson ans)]
+
 def handle (req : Json) : Json :=
   match (do
     let kind ← req.getObjValAs? String "kind"
@@ -198,6 +230,8 @@ def handle (req : Json) : Json :=
     | "call" => handleCall req
     | "spell" => handleSpell req
     | "inspell" => handleInSpell req
+    | "schemasel" => handleSchemaSel req
+    | "schemasget" => handleSchemasGet req
     | _ => throw "unknown kind") with
   | .ok j => j
   | .error e => Json.mkObj [("error", e)]
